@@ -170,7 +170,7 @@ def rule_pair(ctx):
         a2 = {c.func.value.attr for c in U.calls(fr.node) if U.method_name(c) == 'free' and isinstance(c.func.value, ast.Attribute)}
         ctx.ob('C17.pair', f'{ci.fq}:allocator', len(a1) == 1 and a1 == a2, f'{ci.name} allocates from {sorted(a1)} and frees to {sorted(a2)}', fr.node, ci.module)
         src = full(fr.node)
-        ok = U.before(src, f'_allocator.free(self.{idf})', f'self.{idf} = None')
+        ok = U.before(str(src), f'_allocator.free(self.{idf})', f'self.{idf} = None')
         ctx.ob('C17.pair', f'{ci.fq}:release-before-clear', ok, 'the id is returned to the allocator before it is cleared, and it is cleared', fr.node, ci.module)
     b = repo.cls('sc3.synth.buffer:Buffer')
     fr = b.methods['free']
